@@ -117,6 +117,40 @@ def catalogue(rng, quick):
     return cases
 
 
+def extreme_cases(seed, quick):
+    """valid documents with numbers at the ends of binary64 (nb.extremes): per-region areas whose float sum absorbs all but
+    one region (4e17 + 12 + 4, 2^53 + 1, inf + 40, 40 + 5e-324), areas / centres / aspect ratios / weights at 5e-324 ... 1e300,
+    the largest float, infinity.  Own random stream: the other streams draw what they drew before.  Documents the model can
+    be run on (no infinity, no int that is no float) go through the correspondence as well, the others through the oracle."""
+    import random
+    from harness.props import c05
+    rng = random.Random(f"C04-extreme-{seed}")
+    cases = []
+    # every absorbing pair once, on a module of its own and inside a document with all kinds
+    for g, others in nb.ABSORBED:
+        for rich in ((False,) if quick else (False, True)):
+            names = ["dsp", "bram", "lut"][:len(others)]
+            items = [("_", g)] + list(zip(names, others))
+            if rng.random() < 0.5:
+                rng.shuffle(items)
+            doc = nb.rich_doc(rng) if rich else {"Modules": {"A": {"area": 8}, "T": {"terminal": True, "center": [1, 2]}},
+                                                 "Nets": [["A", "T"]]}
+            free = [k for k, i in doc["Modules"].items() if not nc.doc_is_hard(i) and "rectangles" not in i]
+            if not free:      # every soft module of the draw has rectangles
+                doc["Modules"]["xS"] = {"area": 1}
+                free = ["xS"]
+            k = free[0]
+            doc["Modules"][k]["area"] = dict(items)
+            cases.append(c05.with_form(rng, {"stream": "extreme", "tag": "ground-absorbs", "exact": nb.extreme_exact(doc),
+                                             "doc": doc}, p_history=0.05))
+    for _ in range(35 if quick else 300):
+        base = nb.rich_doc(rng) if rng.random() < 0.3 else nc.gen_doc(rng, quirks=False)
+        d, tags, exact = nb.extremes(rng, base)
+        cases.append(c05.with_form(rng, {"stream": "extreme", "tag": "+".join(sorted(set(tags))), "exact": exact, "doc": d},
+                                   p_history=0.1))
+    return cases
+
+
 def nontrivial(case):
     nm, nn, nr = nc.doc_stats(case["doc"])
     return nm >= 2 and (nn >= 1 or nr >= 2)
@@ -145,6 +179,11 @@ def run(ctx, out, replay=None):
                 "document with every module kind and documents of 9..257 (1001) modules, 9..65 (257) members, 33..101 (1001) "
                 "nets, 9..65 (161) rectangles, names of 32..4097 (8193) characters, 9..33 (101) regions; half of the new "
                 "streams given as the tree, as hand-spelled YAML text (1e3, +2, .5, 0x1F, quoted names), as a file name or as an open text stream, "
+                "plus the `extreme` stream (50 / 330 documents, own random stream): areas, centres, aspect ratios and net weights "
+                "at 5e-324, 2^-1022, 1e-300, 2^-60, 1e17, 4e17, 2^53, 2^53 + 1 (int), 2^53 + 2, 2^60, 1e300, the largest float and "
+                "infinity, per-region areas whose float sum absorbs all regions but one (ground 4e17 / 2^53 / inf / 40 next to "
+                "12 / 1 / 40 / 5e-324, or the other way round) - with the model where it can be run (finite binary64 values), "
+                "by the oracle otherwise; "
                 "15% after other loads / writes in the same process, 8% with the source loaded twice; each is loaded, "
                 "written (twice), reloaded and written again; non-trivial = at least two modules and a net or two "
                 "rectangles; distinct by hash")
@@ -155,6 +194,7 @@ def run(ctx, out, replay=None):
     cases += catalogue(ctx.rng, ctx.quick())
     while len(cases) < n:
         cases.append(gen_case(ctx.rng))
+    cases += extreme_cases(ctx.seed, ctx.quick())
     for c in cases:
         for k in kinds(c):
             out.count("kind/" + k)
